@@ -288,4 +288,19 @@ Fixpoint calls_run (hypot : T -> T -> T) (cs : list call) : res (list answer) :=
   | c :: cs' => rbind (call_answer hypot c) (fun a => rbind (calls_run hypot cs') (fun l => Ok (a :: l)))
   end.
 
+(** ** Chains of rotations: the product of any number of rotation matrices, built with the library's own Matrix product.
+
+      Matrix P = Identity_Matrix(dim);  double sum = 0.0;
+      for k = 1 .. n:  P = P * Rotation_Matrix(alpha_k, dim, axis_k);  sum += alpha_k;
+
+    Identity_Matrix(dim) = Matrix(std::vector<double>(dim, 1.0)): zeros with 1.0 on the diagonal.  All factors have the same
+    [dim], so the operands of Matrix::Product are conformable whenever the Rotation_Matrix calls return. *)
+Definition midentity (n : nat) : list (list T) :=
+  map (fun i => map (fun j => if Nat.eqb i j then one else zero) (seq 0 n)) (seq 0 n).
+Definition angle_sum (angles : list T) : T := fold_left (fun acc a => acc + a) angles zero.
+Definition rot_chain_step (dim : Z) (acc : res (list (list T))) (f : T * list T) : res (list (list T)) :=
+  rbind acc (fun P => rbind (rotation_matrix (fst f) dim (snd f)) (fun Rm => Ok (mmul P Rm))).
+Definition rot_chain (dim : Z) (fs : list (T * list T)) : res (list (list T)) :=
+  fold_left (rot_chain_step dim) fs (Ok (midentity (Z.to_nat dim))).
+
 End C16.
